@@ -9,6 +9,7 @@
    stubbed) and the returned assembler must carry the requested form's source;
 4. identical source <-> identical on-disk module name, stable across PYTHONHASHSEED values and processes."""
 import json
+import random
 import subprocess
 from pathlib import Path
 
@@ -48,7 +49,7 @@ def run(ctx):
                        'their generated code is identical)', 'universe = harness/forms.py (one-token mutants along '
                        'every attribute the property names)']
     # 1. design check + negative controls
-    consts = dict(KeyIgnores=set(), ModeInKey=True, MaxLen=3, EmitBeh=False)
+    consts = dict(KeyIgnores=set(), ModeInKey=True, MaxLen=3, EmitBeh=False, SameKeyOnly=False)
     cfg = write_cfg(ctx.scratch / 'abs.cfg', consts, invariants=['Sound', 'Functional'], view='View')
     ctx.tlc('VFormCacheAbs', cfg, workers=4)
     for nm, kw in (('legacy-key', dict(KeyIgnores={'fn', 'bdry'})), ('no-mode', dict(ModeInKey=False)),
@@ -85,7 +86,7 @@ def run(ctx):
     df = ctx.scratch / 'cache_data.json'
     df.write_text(json.dumps(data))
     maxlen = 3 if ctx.thorough else 2
-    cfg = write_cfg(ctx.scratch / 'data.cfg', dict(MaxLen=maxlen, EmitBeh=True), invariants=['Functional'],
+    cfg = write_cfg(ctx.scratch / 'data.cfg', dict(MaxLen=maxlen, EmitBeh=True, SameKeyOnly=False), invariants=['Functional'],
                     view='View', action_constraints=['EmitAction'])
     res = ctx.tlc('VFormCacheData', cfg, workers=1, env={'CACHE_DATA': str(df)}, must_pass=False, timeout=3000)
     if not res.ok and res.violated != 'Functional':
@@ -162,6 +163,46 @@ def run(ctx):
         nontriv = h is not None and len(seq) >= 2
         ctx.case(('replay', tuple(map(tuple, seq))), nontrivial=nontriv,
                  sample={'sequence': label, 'all responses carried the requested source': True} if len(ctx.samples) < 4 and nontriv else None)
+
+    # 3b. the TLC-generated forms of the C06/C01 generator (large universe): all same-key request pairs
+    gcfg = write_cfg(ctx.scratch / 'gen13.cfg', dict(Dim=2, MaxTok=9, MaxStack=3, Rich=True, Poly=False), invariants=['TypeOK'])
+    gres = ctx.tlc('VFormGen', gcfg, workers=4, simulate=40000 if not ctx.thorough else 200000, depth=14, seed=ctx.seed + 5)
+    gcfg2 = write_cfg(ctx.scratch / 'gen13b.cfg', dict(Dim=2, MaxTok=4, MaxStack=3, Rich=False, Poly=False), invariants=['TypeOK'])
+    gres2 = ctx.tlc('VFormGen', gcfg2, workers=4)
+    toks = {}
+    for f in gres2.recs('FORM') + gres.recs('FORM'):
+        toks[tuple(f['tokens'])] = f
+    G = [dict(name='gen:' + ' '.join(t), kind='gen', tokens=list(t), dim=f['dim'], attr='generated') for t, f in toks.items()]
+    rng2 = random.Random(ctx.seed + 9)
+    rng2.shuffle(G)
+    G = G[:(6000 if ctx.thorough else 900)]
+    U2 = U + G
+    tab2 = child(ctx, 'tables', {'universe': U2, 'skip_names': True}, seed=0, tag='g')
+    ok_idx = [i for i in range(len(U2)) if tab2['keys'][i] is not None]
+    keys2, _ = classes([tab2['keys'][i] for i in ok_idx])
+    flat2 = [s for i in ok_idx for s in tab2['srcs'][i] if s is not None]
+    _, sid2 = classes(flat2)
+    srcs2 = [[sid2.get(s, 0) if s is not None else 0 for s in tab2['srcs'][i]] for i in ok_idx]
+    data2 = {'nf': len(ok_idx), 'key': keys2, 'src': srcs2, 'preseed': []}
+    df2 = ctx.scratch / 'cache_data2.json'
+    df2.write_text(json.dumps(data2))
+    cfg2 = write_cfg(ctx.scratch / 'data2.cfg', dict(MaxLen=2, EmitBeh=True, SameKeyOnly=True), invariants=['Functional'],
+                     view='View', action_constraints=['EmitAction'])
+    res2 = ctx.tlc('VFormCacheData', cfg2, workers=1, env={'CACHE_DATA': str(df2)}, must_pass=False, timeout=3000)
+    if not res2.ok and res2.violated != 'Functional':
+        raise MachineryError('VFormCacheData (generated universe) did not complete: %s\n%s' % (res2.error, res2.stdout[-2000:]))
+    names2 = [U2[i]['name'] for i in ok_idx]
+    seen2 = set()
+    for h in res2.recs('UNSOUND'):
+        a, b = names2[h[0]['f'] - 1], names2[h[-1]['f'] - 1]
+        pair = tuple(sorted([a, b])) + (h[-1]['m'],)
+        if pair in seen2:
+            continue
+        seen2.add(pair)
+        ctx.violation('cache-collision forms=%s|%s on_demand=%d' % pair, {'generated': True})
+    for i in ok_idx[len(U):]:
+        ctx.case(('gentable', U2[i]['name']), nontrivial=True)
+    ctx.notes['generated_forms_in_key_check'] = len(ok_idx) - len(U)
 
     # 4. source <-> module name, across hash seeds
     if tab['have_names']:
